@@ -542,3 +542,17 @@ func RunSub(bin, sub string, r *Run, timeout time.Duration) (*Summary, error) {
 }
 
 func osexec(bin string, args ...string) *exec.Cmd { return exec.Command(bin, args...) }
+
+// ReadSummary reads the summary a child/sub run wrote with -subout.
+func ReadSummary(path string) (*Summary, error) {
+	b, err := os.ReadFile(path)
+	if err != nil {
+		return nil, err
+	}
+	var s Summary
+	if err := json.Unmarshal(b, &s); err != nil {
+		return nil, err
+	}
+	os.Remove(path)
+	return &s, nil
+}
